@@ -99,6 +99,9 @@ inductive Ty where
   | ref (name : List Char)
   | opt (t : Ty)
   | union (ts : List Ty)
+  /-- `Union[…] = Field(…, discriminator=prop)`: the alternatives are classes of named definitions; each
+  carries the tag literals that `Parser.__apply_discriminator_type` writes into its class -/
+  | tagged (prop : List Char) (branches : List (List Atom × List Char))
   deriving Inhabited
 
 abbrev IRDefs := List (List Char × Ty)
@@ -112,6 +115,13 @@ structure Opts where
   useGenericContainerTypes : Bool := false
   useUnionOperator : Bool := false
   useDoubleQuotes : Bool := false
+  /-- options of later passes / of the writer; fields here so that "stage 1 does not read them" is a statement -/
+  keepModelOrder : Bool := false
+  reuseModel : Bool := false
+  collapseRootModels : Bool := false
+  /-- `target_python_version` as minor version (3.x) and whether the default formatters run -/
+  targetMinor : Nat := 9
+  formatters : Bool := false
   deriving DecidableEq, Repr, Inhabited
 
 /-- `Parser.__init__` raises for `use_annotated` without `field_constraints` -/
@@ -182,6 +192,48 @@ def constDefaulted (st : Style) : Schema → Bool
   | .const _ => st == .v1
   | _ => false
 
+/-! ### discriminators (`Parser.__apply_discriminator_type`, parser/base.py) -/
+
+/-- `Literal[…]` of the tag values -/
+def litTy : List Atom → Ty
+  | [a] => .const a
+  | as => .enumCls as
+
+/-- the tag literals of the class of definition `r`: EVERY mapping key that points at it -/
+def tagAtoms (refs : List (List Char)) (mapping : List (List Char × List Char)) (r : List Char) : List Atom :=
+  (tagsOf (effMapping refs mapping) r).map Atom.str
+
+def branchesOf (refs : List (List Char)) (mapping : List (List Char × List Char)) :
+    List (List Atom × List Char) :=
+  refs.map (fun r => (tagAtoms refs mapping r, r))
+
+/-- the loop over `discriminator_model.fields`: the member named like the discriminator property gets
+the type `Literal[tags]` and becomes required; when there is no such member one is appended.
+(The early exit `len(literals) == 1 and literals[0] == type_names[0]` needs a member that already has
+a `Literal` data type: that only arises under `--enum-field-as-literal`, outside this model — a
+`const` member keeps its plain type at this stage and carries the constant as a field extra.) -/
+def patchFields (prop : List Char) (tags : List Atom) :
+    List (List Char × Bool × Cons × Ty) → List (List Char × Bool × Cons × Ty)
+  | [] => [(prop, true, {}, litTy tags)]
+  | f :: fs =>
+    if f.1 == prop then (prop, true, f.2.2.1, litTy tags) :: fs
+    else f :: patchFields prop tags fs
+
+/-- what the pass does to the class of one alternative (classes only) -/
+def patchTag (prop : List Char) (tags : List Atom) : Ty → Ty
+  | .model fields extra => .model (patchFields prop tags fields) extra
+  | .derived bases fields extra => .derived bases (patchFields prop tags fields) extra
+  | t => t
+
+/-- `_parse_object_common_part`, `if required:` — the names collected from the property-less members of
+`allOf` (`{"required": […]}`) mark the class's OWN fields, AFTER they were built: `field.required = True`
+(also for a `const` member of v1-style output, whose constructor had made it optional). Fields are
+keyed by their JSON name here; `markRequired` below is the same step on fields that also carry their
+Python name. -/
+def markReq (xreq : List (List Char)) (fs : List (List Char × Bool × Cons × Ty)) :
+    List (List Char × Bool × Cons × Ty) :=
+  fs.map (fun f => if xreq.contains f.1 then (f.1, true, f.2.2.1, f.2.2.2) else f)
+
 mutual
 /-- `parse_obj` (ctx = top) / `parse_item` (otherwise) -/
 def tr (st : Style) (o : Opts) : Ctx → Schema → Ty
@@ -209,7 +261,9 @@ def tr (st : Style) (o : Opts) : Ctx → Schema → Ty
       if hc && (phc || o.fieldConstraints) then .root (rootCons o (consOfItems (fieldKw st) mn mx)) lst
       else lst
   | _, .object props req addl => .model (trProps st o req props) (extraOf st addl)
-  | _, .dict value => .dict (tr st o .plain value)
+  | _, .dict value =>
+    -- a discriminator on the value schema of `additionalProperties` is not a field extra: plain Union
+    .dict (if value.isDisc then .union (value.discRefs.map .ref) else tr st o .plain value)
   | _, .ref n => .ref n
   | _, .anyOf alts => .union (trAlts st o alts)
   | _, .oneOf alts => .union (trAlts st o alts)
@@ -219,9 +273,16 @@ def tr (st : Style) (o : Opts) : Ctx → Schema → Ty
     -- (known finding D32); `parse_item` passes `ignore_duplicate_model=True`: a single base without own
     -- fields is used directly
     match ctx, refs, props with
-    | .top, _, _ => .derived refs (trProps st o (req ++ xreq) props) .unset
+    | .top, _, _ => .derived refs (markReq xreq (trProps st o req props)) .unset
     | _, [r], [] => .ref r
-    | _, _, _ => .derived refs (trProps st o (req ++ xreq) props) .unset
+    | _, _, _ => .derived refs (markReq xreq (trProps st o req props)) .unset
+  | ctx, .disc _ prop refs mapping =>
+    -- a member keeps the union and gets `Field(discriminator=…)`; a document / definition (`parse_obj`) and
+    -- an array item (`if item.discriminator and parent and parent.is_array`) go through `parse_root_type`
+    let t := Ty.tagged prop (branchesOf refs mapping)
+    match ctx with
+    | .plain => t
+    | _ => .root {} t
 /-- `parse_object_fields` -/
 def trProps (st : Style) (o : Opts) (req : List (List Char)) :
     List (List Char × Schema) → List (List Char × Bool × Cons × Ty)
@@ -232,12 +293,90 @@ def trProps (st : Style) (o : Opts) (req : List (List Char)) :
 /-- `parse_combined_schema` → `parse_list_item(…, parent = the union schema)` -/
 def trAlts (st : Style) (o : Opts) : List Schema → List Ty
   | [] => []
-  | s :: ss => tr st o (.item false) s :: trAlts st o ss
+  | s :: ss =>
+    -- a discriminated union nested in a union is parsed as a plain nested Union (its parent is no array)
+    (if s.isDisc then .union (s.discRefs.map .ref) else tr st o (.item false) s) :: trAlts st o ss
 end
+
+/-! ### original name vs Python name (`required` at the allOf level)
+
+The IR above keys a member by its JSON name. The parser's field objects carry two names: `name` (what
+the field-name resolver made of the JSON name: `first-name` ↦ `first_name`, `class` ↦ `class_`, …; C06)
+and `original_name` (the JSON name). The step that applies an allOf-level `required` must look the
+collected names up by the ORIGINAL name. -/
+
+/-- a member as `_parse_object_common_part` holds it -/
+structure PField where
+  name : List Char
+  originalName : Option (List Char)
+  required : Bool
+  cons : Cons
+  ty : Ty
+
+/-- `parse_object_fields`; `nm` is the field-name resolver (any function: the statements below hold for
+every renaming). Every member gets `original_name` = its JSON name. -/
+def parseFields (st : Style) (o : Opts) (nm : List Char → List Char) (req : List (List Char))
+    (props : List (List Char × Schema)) : List PField :=
+  props.map (fun p => ⟨nm p.1, some p.1, req.contains p.1 && !constDefaulted st p.2,
+    fieldCons st o p.2, tr st o .plain p.2⟩)
+
+/-- `field.original_name or field.name` -/
+def PField.key (f : PField) : List Char := f.originalName.getD f.name
+
+/-- `if (field.original_name or field.name) in required: field.required = True` -/
+def markRequired (required : List (List Char)) (fs : List PField) : List PField :=
+  fs.map (fun f => if required.contains f.key then { f with required := true } else f)
+
+/-- the variant that looks the names up by the Python name (NOT what the code does; see C04) -/
+def markRequiredByName (required : List (List Char)) (fs : List PField) : List PField :=
+  fs.map (fun f => if required.contains f.name then { f with required := true } else f)
+
+/-- forget the Python name -/
+def PField.toIR (f : PField) : List Char × Bool × Cons × Ty := (f.key, f.required, f.cons, f.ty)
 
 /-- definitions are parsed by `parse_obj` -/
 def trDefs (st : Style) (o : Opts) : Defs → IRDefs
   | [] => []
   | p :: ps => (p.1, tr st o .top p.2) :: trDefs st o ps
+
+/-! ### the discriminator pass over a whole document
+
+`acceptsTy` applies `patchTag` where a tagged union looks an alternative up (the classes of the
+alternatives are rewritten for that union). The real pass rewrites the classes themselves, once per
+field that carries `discriminator`; `patchDefs` is that pass, used for the stage-1 comparison of the
+definitions with the IR of the real parser. -/
+
+mutual
+/-- the fields that carry a `discriminator` extra: members, root types of documents / definitions and of
+array items — not the value schema of `additionalProperties`, not a union nested in a union -/
+def sites : Schema → List (List Char × List (List Atom × List Char))
+  | .disc _ prop refs mapping => [(prop, branchesOf refs mapping)]
+  | .array items _ _ => sites items
+  | .object props _ _ => sitesProps props
+  | .dict value => if value.isDisc then [] else sites value
+  | .anyOf alts => sitesAlts alts
+  | .oneOf alts => sitesAlts alts
+  | .allOf _ props _ _ => sitesProps props
+  | _ => []
+def sitesProps : List (List Char × Schema) → List (List Char × List (List Atom × List Char))
+  | [] => []
+  | p :: ps => sites p.2 ++ sitesProps ps
+def sitesAlts : List Schema → List (List Char × List (List Atom × List Char))
+  | [] => []
+  | s :: ss => (if s.isDisc then [] else sites s) ++ sitesAlts ss
+end
+
+/-- all discriminator sites of a document: its body, then its definitions -/
+def docSites (defs : Defs) (body : Schema) : List (List Char × List (List Atom × List Char)) :=
+  sites body ++ sitesProps defs
+
+/-- one site applied to the class of definition `n` -/
+def applySite (n : List Char) (d : Ty) (s : List Char × List (List Atom × List Char)) : Ty :=
+  match s.2.find? (fun b => b.2 == n) with
+  | some b => patchTag s.1 b.1 d
+  | none => d
+
+def patchDefs (ss : List (List Char × List (List Atom × List Char))) (D : IRDefs) : IRDefs :=
+  D.map (fun nd => (nd.1, ss.foldl (applySite nd.1) nd.2))
 
 end Dcg.Model.Translate
